@@ -197,6 +197,27 @@ def check(ctx, rep):
         rep.add("R02e", f"{can.qualname} is pure", not bad, ctx.where(can), f"effects: {bad}" if bad else "",
                 key=f"R02e|{can.qualname}|{bad}")
 
+    # what a test calls must not remember anything from one connection to the next
+    from .c14 import memo_obligations
+    reach = set()
+    work = []
+    for P in protos:
+        for nm in ("canhandlerequest", "__init__"):
+            m = prog.resolve_method(P, nm)
+            if m is not None:
+                work.append((m, P))
+    while work:
+        f, C = work.pop()
+        if f in reach:
+            continue
+        reach.add(f)
+        for call, t in eff.calls_of(f, C):
+            if t.kind in ("repo", "ctor") and not t.by_name:
+                for g in t.funcs:
+                    if g is not None and g not in reach:
+                        work.append((g, t.bound_cls if t.bound_cls is not None else g.cls))
+    memo_obligations(ctx, rep, "R02e", eff, reach)
+
     wap_autodetect_obligations(ctx, rep, "R02g")
 
     # ------------------------------------------------------------------ R02f
